@@ -20,6 +20,8 @@ pub enum Beh {
     Panic,
     /// a response whose body is a file: (status, declared length, bytes on disk or None = file missing)
     File(u16, u64, Option<usize>),
+    /// fetch the body (limit 1 000 000), then take `ms` milliseconds over it
+    Wait(u64),
     /// an event stream of `n` messages sent 25 ms apart by another thread, then closed
     Events(u32),
 }
@@ -94,6 +96,12 @@ fn handler(req: Request) -> Response {
                 std::fs::write(&p, (0..n).map(|i| b'a' + (i % 26) as u8).collect::<Vec<u8>>()).unwrap();
             }
             Response::new(code).with_type(servlin::ContentType::OctetStream).with_body(servlin::ResponseBody::File(p, declared))
+        }
+        Beh::Wait(ms) => {
+            if req.body.is_pending() { Response::get_body_and_reprocess(1_000_000) } else {
+                std::thread::sleep(Duration::from_millis(ms));
+                Response::text(200, format!("got-{path}-{}", req.body.len().unwrap_or(0)))
+            }
         }
         Beh::Events(n) => {
             let (mut sender, r) = Response::event_stream();
@@ -202,6 +210,7 @@ pub fn request_bytes(spec: &str) -> (Vec<u8>, String, Beh) {
         "d" => Beh::Drop,
         // F<code>-<declared>-<actual|m>
         "E" => Beh::Events(beh[1..].parse().unwrap()),
+        "w" => Beh::Wait(beh[1..].parse().unwrap()),
         "F" => {
             let parts: Vec<&str> = beh[1..].split('-').collect();
             Beh::File(parts[0].parse().unwrap(), parts[1].parse().unwrap(), if parts[2] == "m" { None } else { Some(parts[2].parse().unwrap()) })
@@ -212,7 +221,7 @@ pub fn request_bytes(spec: &str) -> (Vec<u8>, String, Beh) {
 }
 
 fn read_all(c: &mut TcpStream) -> Vec<u8> {
-    let _ = c.set_read_timeout(Some(Duration::from_secs(10)));
+    let _ = c.set_read_timeout(Some(Duration::from_secs(15)));
     let mut out = Vec::new();
     let mut buf = [0u8; 65536];
     loop {
@@ -342,6 +351,7 @@ pub fn case(ctx: &mut Ctx, tag: &str, small: &str, cache: &str, schedule: &str, 
                 for (bytes, _, _) in &specs {
                     if client.write_all(bytes).is_err() { break; }
                     if !read_one_response(&mut client, &mut transcript) { break; }
+                    std::thread::sleep(Duration::from_millis(25));
                     let mut n = count_files(&srv.cache);
                     for _ in 0..150 {
                         if n <= before { break; }
@@ -485,6 +495,30 @@ fn body(rng: &mut Rng, n: usize) -> String {
     if n > 2000 { enc(&vec![b'a' + (rng.below(26) as u8); n]) } else { enc(&rng.bytes(n)) }
 }
 
+/// Event streams inside a sequence of requests: the requests that follow arrive with the first one, in fragments, or while the
+/// stream is still being produced, and the client half-closes its side as soon as it has sent everything (legal: it keeps
+/// reading).  Every event, the terminating chunk and every later response must arrive, in order.
+fn events_in_sequences(ctx: &mut Ctx, rng: &mut Rng) {
+    let mut eidx = 50_000u64;
+    for n in [1u32, 2, 3] {
+        for sched in ["single", "frag", "mid"] {
+            for shape in 0..2 {
+                eidx += 1;
+                if !ctx.mine(eidx) { continue; }
+                let reqs = if shape == 0 { format!("GET:/ev{eidx}:n::E{n};GET:/after{eidx}:n::n200") }
+                    else { format!("GET:/pre{eidx}:n::n200;GET:/ev{eidx}:n::E{n};POST:/post{eidx}:k:{}:n201;GET:/ev2{eidx}:n::E1", body(rng, 30)) };
+                case(ctx, "c04", "100", "1", sched, &reqs);
+            }
+        }
+    }
+}
+
+/// c04e: only the event-stream sequences (shared by C04, C07 and C11)
+pub fn run_c04e(ctx: &mut Ctx) {
+    let mut rng = Rng::new(ctx.seed.wrapping_add(44));
+    events_in_sequences(ctx, &mut rng);
+}
+
 /// C04: sequences of 1..12 requests x behaviours x schedules.
 pub fn run(ctx: &mut Ctx) {
     let mut rng = Rng::new(ctx.seed.wrapping_add(4));
@@ -525,20 +559,7 @@ pub fn run(ctx: &mut Ctx) {
             case(ctx, "c04", &small.to_string(), if cache { "1" } else { "0" }, sched, &reqs.join(";"));
         }
     }
-    // event streams inside a sequence: the requests that follow arrive with the first one, in fragments, or while the stream is
-    // still being produced; every event and every later response must arrive, in order
-    let mut eidx = 50_000u64;
-    for n in [1u32, 2, 3] {
-        for sched in ["single", "frag", "mid"] {
-            for shape in 0..2 {
-                eidx += 1;
-                if !ctx.mine(eidx) { continue; }
-                let reqs = if shape == 0 { format!("GET:/ev{eidx}:n::E{n};GET:/after{eidx}:n::n200") }
-                    else { format!("GET:/pre{eidx}:n::n200;GET:/ev{eidx}:n::E{n};POST:/post{eidx}:k:{}:n201;GET:/ev2{eidx}:n::E1", body(&mut rng, 30)) };
-                case(ctx, "c04", "100", "1", sched, &reqs);
-            }
-        }
-    }
+    events_in_sequences(ctx, &mut rng);
     // a client that waits for `100 Continue` before sending the body (head first, body after the interim response)
     let nw = if ctx.thorough() { 200 } else { 30 };
     for i in 0..nw {
@@ -709,6 +730,19 @@ pub fn run_c09(ctx: &mut Ctx) {
             }
         }
     }
+    // declared lengths written with leading zeros (Content-Length = 1*DIGIT), also wider than the 20 digits of u64::MAX:
+    // the same boundaries apply to the value, not to its spelling
+    for (l, width) in [(0u64, 21usize), (3, 21), (100, 24), (101, 21), (101, 40), (5000, 22), (5000, 3), (7, 20), (7, 19)] {
+        for m in [l, l.saturating_sub(1), 1_000_000] {
+            for expect in [false, true] {
+                idx += 1;
+                if !ctx.mine(idx) { continue; }
+                let body = enc(&(0..l as usize).map(|i| b'a' + (i % 23) as u8).collect::<Vec<u8>>());
+                let framing = format!("{}{:0width$}", if expect { "f" } else { "d" }, l, width = width);
+                case(ctx, "c09", "100", "1", "single", &format!("POST:/r0:{framing}:{body}:g{m};GET:/r1:n::n200"));
+            }
+        }
+    }
 }
 
 /// C09: an over-limit body of undeclared length is refused after M+1 bytes, without waiting for the end of the stream.
@@ -729,6 +763,21 @@ pub fn run_c09_hold(ctx: &mut Ctx) {
 pub fn run_c10(ctx: &mut Ctx) {
     let mut idx = 0u64;
     let mut rng = Rng::new(ctx.seed.wrapping_add(10));
+    // an upload that the handler answers without asking for the body, the client having sent only part of it and then
+    // stalling: the request is answered, so no file may appear for it afterwards
+    for (declared, sent) in [(5000usize, 200usize), (5000, 0), (200_000, 70_000), (101, 100)] {
+        for code in ["n200", "n303", "n201"] {
+            idx += 1;
+            if !ctx.mine(idx) { continue; }
+            let body = enc(&vec![b'p'; sent]);
+            case(ctx, "c10", "100", "1", "linger", &format!("POST:/r0:d{declared}:{body}:{code}"));
+        }
+    }
+    // a handler that takes 11 s over a received upload: the response is the handler's own, and the file is gone once it is sent
+    idx += 1;
+    if ctx.mine(idx) {
+        case(ctx, "c10", "100", "1", "single", &format!("POST:/slow:k:{}:w11000;GET:/r1:n::n200", enc(&vec![b's'; 300])));
+    }
     let lens: Vec<usize> = if ctx.thorough() { vec![1, 200, 8191, 8192, 8193, 65536, 100_000] } else { vec![200, 8192, 70_000] };
     for len in lens {
         let body = enc(&(0..len).map(|i| b'A' + (i % 26) as u8).collect::<Vec<u8>>());
